@@ -2,6 +2,7 @@
 
 pub mod drive;
 pub mod engine;
+pub mod fuzz;
 pub mod gen;
 pub mod props;
 pub mod refmodel;
